@@ -112,6 +112,19 @@ def property_on_impl(m, maxseg_lambda=None):
         for c in ('e_theta', 'e_phi'):
             if abs(imp2[key][c] - v[c] * 2 * 2) > 1e-9 * abs(v[c]) + 1e-300:
                 return 'V/m does not scale with sqrt(power)/distance'
+    # a power level requested without a distance: the V/m values are those at unit distance (r E), they satisfy the same
+    # relation with r = 1 and scale with the square root of the power
+    p1_ = farlib.impl_far(m, THETAS, PHIS, pwr=25.0)
+    p2_ = farlib.impl_far(m, THETAS, PHIS, pwr=100.0)
+    for (th, ph), v in base.items():
+        l = lin(v['db'])
+        for k, key in ((0, 'e_theta'), (1, 'e_phi')):
+            g = abs(p1_[(th, ph)][key]) ** 2 / (59.96 * 25.0)
+            if abs(g - l[k]) > 2e-4 * mx:
+                return ('with a power level of 25 W and no distance requested: gain %r vs |E|^2/(59.96 P) = %r at theta=%g phi=%g'
+                        % (l[k], g, th, ph))
+            if abs(p2_[(th, ph)][key] - 2 * p1_[(th, ph)][key]) > 1e-9 * abs(p1_[(th, ph)][key]) + 1e-300:
+                return 'V/m does not scale with the square root of the requested power when no distance is given (25 W -> 100 W)'
     # 360 degree rows
     for th in THETAS:
         a, b, c = base[(th, 33.0)], base[(th, 393.0)], base[(th, -327.0)]
